@@ -14,8 +14,20 @@ def grid_check(ctx, own, *, nontrivial_note=None, quick_fast=900, quick_slow=48,
     if examples:
         names = gen.FAST_EXAMPLES + gen.SLOW_EXAMPLES
         jobs += workload.example_jobs(ctx, oracles, names, perturbed=ctx.pick(1, 8))
-        if sbt and not ctx.quick:
-            jobs += workload.example_jobs(ctx, oracles, ['example_SBT_Lo_T', 'example_SBT_Hi_T'], perturbed=0)
+        if sbt:
+            # closed-loop SBT family (SBTEconomics / SBTWellbores / SBTReservoir, 10-15 s per run): the shipped cases, each
+            # also with several construction years (directed: the shipped ones use the default single year), and redrawn
+            # economic parameters
+            sbt_names = ['example_SBT_Lo_T', 'example_SBT_Hi_T']
+            jobs += workload.example_jobs(ctx, oracles, sbt_names, perturbed=ctx.pick(1, 6))
+            for name in sbt_names:
+                case, raw = gen.example_case(name)
+                gen.cset(case, 'Construction Years', ctx.rng.choice([2, 3, 4, 7]))
+                if ctx.rng.random() < 0.5:
+                    gen.cset(case, 'Plant Lifetime', ctx.rng.choice([7, 15, 25, 35]))
+                jobs.append({'fn': 'gxv.jobs:run_oracles',
+                             'args': {'text': gen.render(case, raw), 'oracles': oracles, 'tag': {'example': name, 'directed': 'construction-years'}},
+                             'timeout': 900})
     if extra_jobs:
         jobs += extra_jobs
     # slow jobs first so the pool's tail is short
